@@ -233,6 +233,11 @@ def u_ctl():
     add("ctl-constmul", ["a: bool"], Q4, ["return Qint4(2) * 3"])
     add("ctl-constmul", ["a: %s" % Q2], Q4, ["return Qint4(3) * Qint4(2) + a"])
     add("ctl-constmul", ["a: %s" % Q2], "Qint[6]", ["c = 6", "return (c * 5) + a"])
+    # containers with more than ten elements (element names 1 / 10 / 11 share a prefix)
+    add("ctl-wide", ["t: Qlist[Qint[2], 12]"], Q2, ["return t[1] + t[10]"])
+    add("ctl-wide", ["t: Qlist[Qint[2], 12]"], Q2, ["x = t[1]", "return x ^ t[11]"])
+    add("ctl-wide", ["t: Qlist[bool, 14]"], "bool", ["return (t[1] and t[13]) ^ t[10]"])
+    add("ctl-wide", ["t: Qlist[Tuple[bool, Qint[2]], 11]"], Q2, ["u = t[1]", "return u[1] + t[10][1]"])
     # a name that held a constant is re-bound to a runtime value and then used as an index
     L4 = "L = [3, 2, 1, 0]"
     add("ctl-constidx", ["a: %s" % Q2], Q2, [L4, "i = 1", "return L[i]"])
